@@ -936,6 +936,141 @@ static void check_silence(Ctx& ctx, bool T) {
     }
 }
 
+// ------------------------------------------------------------------------------------------------ every public overload
+// include/dsplib/spectrum.h declares, for real and for complex input alike, four welch overloads
+//   0: welch(x, int winlen, scale = Psd)                       hamming(winlen), noverlap = winlen/2, nfft = 2^nextpow2(winlen)
+//   1: welch(x, win, scale = Psd)                              noverlap = winlen/2, nfft = 2^nextpow2(winlen)
+//   2: welch(x, int winlen, noverlap, nfft, scale = Psd)       hamming(winlen)
+//   3: welch(x, win, noverlap, nfft, scale = Psd)
+// each callable with the scale omitted, = Psd, = Power: 4 x 3 x 2 inputs = 24 overload x type combinations.  Every one must
+// return, bit for bit, what the fully explicit form welch(x, win_array, noverlap, nfft, type) returns for the documented
+// defaults (the window of the winlen forms is the library's own window::hamming(winlen)).  Likewise the three shorter
+// mscohere overloads against mscohere(x, y, win_array, noverlap, nfft) (there is no scale argument).
+static WelchResult welch_ov(const arr_real& x, int ov, int tm, const arr_real& win, int nov, int nfft) {
+    const int wl = win.size();
+    const SpectrumType t = tm == 2 ? SpectrumType::Power : SpectrumType::Psd;
+    switch (ov) {
+    case 0: return tm == 0 ? welch(x, wl) : welch(x, wl, t);
+    case 1: return tm == 0 ? welch(x, win) : welch(x, win, t);
+    case 2: return tm == 0 ? welch(x, wl, nov, nfft) : welch(x, wl, nov, nfft, t);
+    default: return tm == 0 ? welch(x, win, nov, nfft) : welch(x, win, nov, nfft, t);
+    }
+}
+static WelchResult welch_ov(const arr_cmplx& x, int ov, int tm, const arr_real& win, int nov, int nfft) {
+    const int wl = win.size();
+    const SpectrumType t = tm == 2 ? SpectrumType::Power : SpectrumType::Psd;
+    switch (ov) {
+    case 0: return tm == 0 ? welch(x, wl) : welch(x, wl, t);
+    case 1: return tm == 0 ? welch(x, win) : welch(x, win, t);
+    case 2: return tm == 0 ? welch(x, wl, nov, nfft) : welch(x, wl, nov, nfft, t);
+    default: return tm == 0 ? welch(x, win, nov, nfft) : welch(x, win, nov, nfft, t);
+    }
+}
+
+static void check_overloads(Ctx& ctx, bool T) {
+    static const char* OVN[4] = {"(x,winlen[,type])", "(x,win[,type])", "(x,winlen,nov,nfft[,type])", "(x,win,nov,nfft[,type])"};
+    static const char* TMN[3] = {"omitted", "Psd", "Power"};
+    std::vector<int> wls;
+    if (T) {
+        for (int w = 2; w <= 300; ++w) wls.push_back(w);
+        for (int w : {500, 513, 1000, 1023, 1024, 1025, 2000, 4095, 4097}) wls.push_back(w);
+    } else {
+        wls = {2, 3, 5, 8, 16, 17, 31, 32, 33, 64, 65, 100, 129, 200, 256, 257, 1000};
+    }
+    for (int wl : wls) {
+        int p2 = 1;
+        while (p2 < wl) p2 *= 2;
+        for (int ov = 0; ov < 4; ++ov) {
+            std::vector<Cfg> cs;
+            if (ov >= 2) {
+                for (int nfft : {p2, 2 * p2})
+                    for (int nov : uniq({0, 1, wl / 2, wl - 1})) cs.push_back({nfft, wl, nov});
+            } else {
+                cs.push_back({p2, wl, wl / 2});
+            }
+            for (const Cfg& c : cs)
+                for (int cplx = 0; cplx < 2; ++cplx)
+                    for (int tm = 0; tm < 3; ++tm) {
+                        P p = P().kv("input", cplx ? "complex" : "real").kv("overload", OVN[ov]).kv("type", TMN[tm]).kv("winlen", wl).kv("nov", c.nov).kv("nfft", c.nfft);
+                        if (!ctx.take("welch.forms", p)) continue;
+                        ctx.nontrivial();
+                        ctx.note(fmt("overload %s %s type %s", cplx ? "complex" : "real", OVN[ov], TMN[tm]));
+                        const int st = wl - c.nov, N = wl + 2 * st + (st - 1);
+                        const Sig x = dense(cplx != 0, N, 61 + (uint64_t)N);
+                        // the window the overload is documented to use: hamming(winlen) for the winlen forms, else a kaiser array
+                        std::vector<double> pa, fa, pb, fb;
+                        try {
+                            const arr_real win = (ov == 0 || ov == 2) ? window::hamming(wl) : to_arr(own_window(WK_KAISER, wl));
+                            const SpectrumType t = tm == 2 ? SpectrumType::Power : SpectrumType::Psd;
+                            if (cplx) {
+                                const arr_cmplx a = x.cmplx_arr();
+                                const WelchResult o = welch_ov(a, ov, tm, win, c.nov, c.nfft), e = welch(a, win, c.nov, c.nfft, t);
+                                pa.assign(o.pxx.begin(), o.pxx.end()), fa.assign(o.f.begin(), o.f.end());
+                                pb.assign(e.pxx.begin(), e.pxx.end()), fb.assign(e.f.begin(), e.f.end());
+                            } else {
+                                const arr_real a = x.real_arr();
+                                const WelchResult o = welch_ov(a, ov, tm, win, c.nov, c.nfft), e = welch(a, win, c.nov, c.nfft, t);
+                                pa.assign(o.pxx.begin(), o.pxx.end()), fa.assign(o.f.begin(), o.f.end());
+                                pb.assign(e.pxx.begin(), e.pxx.end()), fb.assign(e.f.begin(), e.f.end());
+                            }
+                        } catch (const std::exception& e) {
+                            ctx.fail(site_of(cplx != 0), std::string("threw: ") + e.what(), "a WelchResult", P().kv("aspect", "threw"));
+                            continue;
+                        }
+                        bool same = pa.size() == pb.size() && fa.size() == fb.size();
+                        size_t bad = 0;
+                        for (size_t i = 0; same && i < pa.size(); ++i)
+                            if (!biteq(pa[i], pb[i]) || !biteq(fa[i], fb[i])) same = false, bad = i;
+                        if (!same)
+                            ctx.fail(site_of(cplx != 0),
+                                     pa.size() != pb.size() ? fmt("%zu values", pa.size()) : fmt("pxx[%zu]=%.17g f=%.17g", bad, pa[bad], fa[bad]),
+                                     pa.size() != pb.size() ? fmt("%zu values", pb.size())
+                                                            : fmt("pxx[%zu]=%.17g f=%.17g of welch(x, win_array, %d, %d, %s)", bad, pb[bad], fb[bad], c.nov, c.nfft, tm == 2 ? "Power" : "Psd"),
+                                     P().kv("aspect", "overload").kv("i", (long long)bad));
+                    }
+        }
+        // ---- mscohere: (x,y,winlen) (x,y,win) (x,y,winlen,nov,nfft) against (x,y,win,nov,nfft)
+        for (int ov = 0; ov < 3; ++ov) {
+            static const char* MON[3] = {"(x,y,winlen)", "(x,y,win)", "(x,y,winlen,nov,nfft)"};
+            std::vector<Cfg> cs;
+            if (ov == 2) {
+                for (int nfft : {p2, 2 * p2})
+                    for (int nov : uniq({0, 1, wl / 2, wl - 1})) cs.push_back({nfft, wl, nov});
+            } else {
+                cs.push_back({p2, wl, wl / 2});
+            }
+            for (const Cfg& c : cs) {
+                if (!ctx.take("mscohere.forms", P().kv("overload", MON[ov]).kv("winlen", wl).kv("nov", c.nov).kv("nfft", c.nfft))) continue;
+                ctx.nontrivial();
+                ctx.note(std::string("overload mscohere ") + MON[ov]);
+                const int st = wl - c.nov, N = wl + 3 * st + (st - 1);
+                const Sig x = dense(false, N, 67), yb = dense(false, N, 71);
+                Sig y = x;
+                for (int i = 0; i < N; ++i) y.re[(size_t)i] = x.re[(size_t)i] + 0.5 * yb.re[(size_t)i];
+                std::vector<double> a, b;
+                try {
+                    const arr_real win = (ov == 0 || ov == 2) ? window::hamming(wl) : to_arr(own_window(WK_KAISER, wl));
+                    const arr_real ax = x.real_arr(), ay = y.real_arr();
+                    const arr_real o = ov == 0 ? mscohere(ax, ay, wl) : ov == 1 ? mscohere(ax, ay, win) : mscohere(ax, ay, wl, c.nov, c.nfft);
+                    const arr_real e = mscohere(ax, ay, win, c.nov, c.nfft);
+                    a.assign(o.begin(), o.end()), b.assign(e.begin(), e.end());
+                } catch (const std::exception& e) {
+                    ctx.fail("mscohere", std::string("threw: ") + e.what(), "coherence", P().kv("aspect", "threw"));
+                    continue;
+                }
+                bool same = a.size() == b.size();
+                size_t bad = 0;
+                for (size_t i = 0; same && i < a.size(); ++i)
+                    if (!biteq(a[i], b[i])) same = false, bad = i;
+                if (!same)
+                    ctx.fail("mscohere", a.size() != b.size() ? fmt("%zu values", a.size()) : fmt("coh[%zu]=%.17g", bad, a[bad]),
+                             a.size() != b.size() ? fmt("%zu values", b.size()) : fmt("coh[%zu]=%.17g of mscohere(x, y, win_array, %d, %d)", bad, b[bad], c.nov, c.nfft),
+                             P().kv("aspect", "overload").kv("i", (long long)bad));
+            }
+        }
+    }
+}
+
 // ------------------------------------------------------------------------------------------------ big sizes (both tiers)
 // Signals of 70 000 and 140 000 samples with nfft 256 and 8192 (window length = nfft): behaviour that only shows above a
 // size threshold (retained buffers, 32-bit products such as length * nfft/2, recurrences whose error grows with the index).
@@ -1010,5 +1145,6 @@ int main(int argc, char** argv) {
     check_big(ctx);
     check_peak_winlens(ctx, T);
     check_silence(ctx, T);
+    check_overloads(ctx, T);
     return ctx.finish();
 }
